@@ -42,6 +42,7 @@ CONSTANTS MaskFrames,    \* set of <<H,W>>: every non-empty mask of each frame i
           HistFrames,    \* frames of the history machine (every non-empty mask of each)
           HistGeoms,     \* geometries of the history machine
           HistDepth,     \* number of steps of a history
+          DumpHistories, \* TRUE: every complete history is printed (for the replay into the real objects)
           SetItemDropsCaches,   \* design switch: item assignment forgets remembered views (TRUE = the documented design)
           DerivedCarriesCaches  \* design switch: 2*a carries the remembered views of a (FALSE = the documented design)
 
@@ -387,8 +388,10 @@ HEdit == /\ CanStep
          /\ UNCHANGED << ivars, kind, dbl, memoD >>
 HFinish == /\ fam = "hist" /\ Len(steps) = HistDepth /\ phase = "hist"
            /\ phase' = "dumped"
-           /\ PrintT(ToJson([k |-> "hist", kind |-> kind, h |-> HH, w |-> WW, u |-> LinSeq(SlimSeq(U, HH, WW), WW),
-                             sy |-> geo[1], sx |-> geo[2], oy |-> geo[3], ox |-> geo[4], steps |-> steps]))
+           /\ IF DumpHistories
+              THEN PrintT(ToJson([k |-> "hist", kind |-> kind, h |-> HH, w |-> WW, u |-> LinSeq(SlimSeq(U, HH, WW), WW),
+                                  sy |-> geo[1], sx |-> geo[2], oy |-> geo[3], ox |-> geo[4], steps |-> steps]))
+              ELSE TRUE
            /\ UNCHANGED << fam, sh, U, geo, pat, call, par, out, hvars >>
 
 HNext == HReadA \/ HReadD \/ HDouble \/ HEdit \/ HFinish
